@@ -38,6 +38,7 @@ CORPUS_Q = [
     '5e-324', '1.7e308', '-1.7e308', '1e16', '9007199254740993.0', '9.223372036854775807e18',
     "''", "'a'", "'ab'", "'b'", "'A'", "'aa'", "'\\xe9'", "'\\U0001f600'", "'1'", "' '", "'a\\x00'",
     '3.5', '-3.5', '1e-7', '123456789.125',
+    "'e\\u0301'", "'f'",        # a decomposed spelling next to its precomposed form '\xe9': code point order, no normalisation
 ]
 CORPUS_T = CORPUS_Q + [
     '4', '5', '-2', '-3', '100', '-100', '2**31', '2**31-1', '-2**31', '2**32', '2**53', '2**53+1',
